@@ -354,6 +354,10 @@ class Negative(Term):
         super().__init__()
         self.term = term
 
+    def nodes_(self) -> Iterator[NodeT]:
+        yield self  # type:ignore[misc]
+        yield from self.term.nodes_()
+
     @property
     def is_aggregate(self) -> bool | None:  # type:ignore[override]
         return self.term.is_aggregate
@@ -526,6 +530,10 @@ class Values(Term):
     def __init__(self, field: str | "Field") -> None:
         super().__init__(None)
         self.field = Field(field) if not isinstance(field, Field) else field
+
+    def nodes_(self) -> Iterator[NodeT]:
+        yield self  # type:ignore[misc]
+        yield from self.field.nodes_()
 
     def get_sql(self, ctx: SqlContext) -> str:
         return "VALUES({value})".format(value=self.field.get_sql(ctx.copy(with_alias=False)))
@@ -1474,6 +1482,15 @@ class AnalyticFunction(AggregateFunction):
         self._include_filter = False
         self._include_over = False
 
+    def nodes_(self) -> Iterator[NodeT]:
+        yield from super().nodes_()
+        for term in self._partition:
+            if isinstance(term, Node):
+                yield from term.nodes_()
+        for term, _ in self._orderbys:
+            if isinstance(term, Node):
+                yield from term.nodes_()
+
     @builder
     def over(self, *terms: Any) -> "Self":  # type:ignore[return]
         self._include_over = True
@@ -1750,6 +1767,10 @@ class AtTimezone(Term):
         self.field = Field(field) if not isinstance(field, Field) else field
         self.zone = zone
         self.interval = interval
+
+    def nodes_(self) -> Iterator[NodeT]:
+        yield self  # type:ignore[misc]
+        yield from self.field.nodes_()
 
     def get_sql(self, ctx: SqlContext) -> str:
         sql = "{name} AT TIME ZONE {interval}'{zone}'".format(
